@@ -716,4 +716,96 @@ theorem step_ok {s : St} {p a g} (h : Inv s p a g) (act : Act) : StepOK s p a g 
   | tick => exact stepOK_ext h (timeout_ext s s.lastSet)
   | stale => exact stepOK_ext h (timeout_ext s s.prevSet)
 
+/-! ## whole runs -/
+
+/-- invariant + trace checkers for a trace prefix -/
+def TraceOK (k : Nat) (s : St) (obs : List Obs) : Prop :=
+  s.k = k ∧ Inv s (procsOf obs) (entriesOf obs) (gotOf [] obs) ∧ cutOK k [] [] obs ∧ alignOK k [] obs
+
+theorem runFrom_ok (k : Nat) : ∀ (as : List Act) (s : St) (acc : List Obs),
+    TraceOK k s acc → TraceOK k (runFrom s acc as).1 (runFrom s acc as).2 := by
+  intro as
+  induction as with
+  | nil => intro s acc h; exact h
+  | cons act as ih =>
+    intro s acc h
+    obtain ⟨hk, hinv, hcut, hal⟩ := h
+    obtain ⟨hk', hinv', hcut', hal'⟩ := step_ok hinv act
+    simp only [runFrom]
+    apply ih
+    refine ⟨hk'.trans hk, ?_, ?_, ?_⟩
+    · rw [procsOf_append, entriesOf_append, gotOf_append]
+      exact hinv'
+    · rw [cutOK_append]
+      rw [hk] at hcut'
+      exact ⟨hcut, by simpa using hcut'⟩
+    · rw [alignOK_append]
+      rw [hk] at hal'
+      exact ⟨hal, hal'⟩
+
+theorem run_ok (k b : Nat) (as : List Act) : TraceOK k (run k b as).1 (run k b as).2 :=
+  runFrom_ok k as (init k b) [] ⟨rfl, inv_init k b, trivial, trivial⟩
+
+/-- between an accepted barrier of `sr` and the next item of `sr` the consumer takes there is a snapshot -/
+theorem alignOK_blocked {k : Nat} {sr : Nat} {it : Item} : ∀ (mid : List Obs) (g : List Nat) (post : List Obs),
+    sr ∈ g → alignOK k g (mid ++ .proc sr it :: post) → ∃ id S T, Obs.snap id S T ∈ mid := by
+  intro mid
+  induction mid with
+  | nil =>
+    intro g post hg h
+    simp only [List.nil_append, alignOK] at h
+    exact absurd hg h.1
+  | cons x r ih =>
+    intro g post hg h
+    cases x with
+    | snap id S T => exact ⟨id, S, T, List.mem_cons_self⟩
+    | reg x i =>
+      simp only [List.cons_append, alignOK] at h
+      obtain ⟨id, S, T, hm⟩ := ih (x :: g) post (List.mem_cons_of_mem _ hg) h
+      exact ⟨id, S, T, List.mem_cons_of_mem _ hm⟩
+    | proc x i =>
+      simp only [List.cons_append, alignOK] at h
+      obtain ⟨id, S, T, hm⟩ := ih g post hg h.2
+      exact ⟨id, S, T, List.mem_cons_of_mem _ hm⟩
+    | handler _ _ | aligned _ _ | busy _ | reject _ _ _ | ack _ | released _ =>
+      simp only [List.cons_append, alignOK] at h
+      obtain ⟨id, S, T, hm⟩ := ih g post hg h
+      exact ⟨id, S, T, List.mem_cons_of_mem _ hm⟩
+
+/-- a snapshot needs an accepted barrier of every sender since the previous snapshot -/
+theorem alignOK_fresh {k : Nat} {id : Nat} {S : KVf} {T : Timers} : ∀ (mid : List Obs) (g : List Nat)
+    (post : List Obs), alignOK k g (mid ++ .snap id S T :: post) →
+    ∀ sr, sr < k → sr ∈ g ∨ ∃ i, Obs.reg sr i ∈ mid := by
+  intro mid
+  induction mid with
+  | nil =>
+    intro g post h sr hsr
+    simp only [List.nil_append, alignOK] at h
+    exact Or.inl (h.1 sr hsr)
+  | cons x r ih =>
+    intro g post h sr hsr
+    cases x with
+    | snap id' S' T' =>
+      simp only [List.cons_append, alignOK] at h
+      rcases ih [] post h.2 sr hsr with hg | ⟨i, hm⟩
+      · cases hg
+      · exact Or.inr ⟨i, List.mem_cons_of_mem _ hm⟩
+    | reg x i =>
+      simp only [List.cons_append, alignOK] at h
+      rcases ih (x :: g) post h sr hsr with hg | ⟨i', hm⟩
+      · rcases List.mem_cons.mp hg with rfl | hg
+        · exact Or.inr ⟨i, List.mem_cons_self⟩
+        · exact Or.inl hg
+      · exact Or.inr ⟨i', List.mem_cons_of_mem _ hm⟩
+    | proc x i =>
+      simp only [List.cons_append, alignOK] at h
+      rcases ih g post h.2 sr hsr with hg | ⟨i', hm⟩
+      · exact Or.inl hg
+      · exact Or.inr ⟨i', List.mem_cons_of_mem _ hm⟩
+    | handler _ _ | aligned _ _ | busy _ | reject _ _ _ | ack _ | released _ =>
+      simp only [List.cons_append, alignOK] at h
+      rcases ih g post h sr hsr with hg | ⟨i', hm⟩
+      · exact Or.inl hg
+      · exact Or.inr ⟨i', List.mem_cons_of_mem _ hm⟩
+
 end Rxn.Align
